@@ -23,8 +23,8 @@ type FunDecl struct {
 // Registry of sorts, datatypes and uninterpreted functions shared by all queries of a run.
 type Registry struct {
 	mu        sync.Mutex
-	sortDecls []string          // in dependency order
-	sortSeen  map[string]bool   // by sort name
+	sortDecls []string        // in dependency order
+	sortSeen  map[string]bool // by sort name
 	funs      map[string]FunDecl
 	axioms    map[string][]namedAxiom // global axioms keyed by function symbol that triggers inclusion
 }
